@@ -272,3 +272,69 @@ func SignedData(sessionID []byte, user, service, algo string, keyBlob []byte) []
 	b = PutS(b, algo)
 	return PutStr(b, keyBlob)
 }
+
+// ServerMsg is one decoded packet written by a server during authentication.
+type ServerMsg struct {
+	Type    byte
+	Kind    string // failure success banner pkok inforeq extinfo svcaccept disconnect other
+	Methods []string
+	Partial bool
+	Algo    string
+	KeyBlob []byte
+	Exts    [][2]string
+}
+
+// ParseServer decodes p; message number 60 is method specific (RFC 4252 §7,
+// RFC 4256 §3.2), so the method of the request being answered is needed.
+func ParseServer(p []byte, pendingMethod string) (*ServerMsg, error) {
+	if len(p) == 0 {
+		return nil, errors.New("empty packet")
+	}
+	m := &ServerMsg{Type: p[0], Kind: "other"}
+	r := &Rd{B: p[1:]}
+	switch m.Type {
+	case MsgUserAuthFailure:
+		m.Kind = "failure"
+		if l := string(r.Str()); l != "" {
+			m.Methods = strings.Split(l, ",")
+		}
+		m.Partial = r.Bool()
+	case MsgUserAuthSuccess:
+		m.Kind = "success"
+	case MsgUserAuthBanner:
+		m.Kind = "banner"
+		r.Str()
+		r.Str()
+	case MsgServiceAccept:
+		m.Kind = "svcaccept"
+		r.Str()
+	case MsgDisconnect:
+		m.Kind = "disconnect"
+		return m, nil
+	case MsgExtInfo:
+		m.Kind = "extinfo"
+		n := r.U32()
+		for i := uint32(0); i < n && r.Err == nil; i++ {
+			k, v := string(r.Str()), string(r.Str())
+			m.Exts = append(m.Exts, [2]string{k, v})
+		}
+	case 60:
+		if pendingMethod == "publickey" {
+			m.Kind = "pkok"
+			m.Algo = string(r.Str())
+			m.KeyBlob = r.Str()
+		} else {
+			m.Kind = "inforeq"
+			return m, nil
+		}
+	default:
+		return m, nil
+	}
+	if r.Err != nil {
+		return m, r.Err
+	}
+	if !r.Done() {
+		return m, fmt.Errorf("type %d: trailing bytes", m.Type)
+	}
+	return m, nil
+}
